@@ -111,7 +111,7 @@ def conformance(data):
 class Spec(ProgramSpec):
     PID = PID
 
-    BAD_NAMES = ('utf 8', 'latin 1', '1252', '437', 'UTF 16', '8859')
+    BAD_NAMES = ('utf 8', 'latin 1', '1252', '437', 'UTF 16', '8859', 'utf-16\n', 'utf-8\n', 'latin1\n', '-1252', '1_0')
     ENC_POS = {'C': 1, 'F': 1, 'P': 2, 'M': 2, 'D': 3}
 
     def cases(self, ctx, budget, rng):
